@@ -63,6 +63,26 @@ def declare(reg, eng):
                  ensures=["forall(k, 0, length(self.locks), implies(not old(at(self.locks, k).detached) and old(at(self.locks, k)._level) == 1, at(self.locks, k)._level == 0))"],
                  modifies=["*._level", "*.available", "*.total", "*.cache", "fs"])
 
+    # ---- closed world of dependencies: Dependency is abstract (status / lock raise NotImplementedError); the tree defines exactly
+    #      these two subclasses (checked against the class definitions of the tree on every run).  A call on a receiver of static
+    #      type Dependency is split over them, so that "a lock that can refuse belongs to a token dependency, and a token
+    #      dependency never reports FAIL" is derived from the real bodies instead of being assumed.
+    reg.close_world("Dependency", ["JobDependency", "CounterTokenDependency"])
+    eng.load("JobDependency.lock", "scheduler/base.py")
+    eng.load("JobLock.__init__", "scheduler/base.py", inline=True)
+    eng.load("JobLock.acquire", "locking.py", qualname="Lock.acquire")       # the inherited body, verified for a JobLock receiver
+    reg.contract("JobDependency.lock", params=["self"], types={"self": "JobDependency"}, returns="JobLock", modifies=[],
+                 ensures=["isfresh(result)", "result._level == 0", "result.detached == False", "result.job is self.origin"])
+    reg.contract("JobLock.acquire", params=["self"], types={"self": "JobLock"}, returns="JobLock", effect="lock.acquire",
+                 requires=["isint(self._level)"],
+                 # a job lock never refuses (no LockError outcome is declared: raising one would fail `noraise`)
+                 ensures=["result is self", "implies(old(self._level) == 0, self._level == 1)",
+                          "implies(old(self._level) != 0, self._level == old(self._level))"],
+                 modifies=["self._level"])
+    # R-ready (assumed environment fact, DESIGN section 11): while a job is READY nobody else writes another state to it.  The only
+    # foreign writer of Job.state is Job.dependencychanged, which writes READY, or ERROR on a FAIL status; every job dependency
+    # of a READY job is DONE (final, R-final) and token dependencies never report FAIL.
+    R_READY = "implies(old(job.state) == JobState.READY, job.state == JobState.READY)"
     eng.load("Scheduler.aio_start", "scheduler/base.py")
     HELD = "length(locks.locks) == %s and forall(k, 0, length(locks.locks), at(locks.locks, k)._level == 1 and not at(locks.locks, k).detached)"
     reg.contract("Scheduler.aio_start", params=["self", "job"], types={"self": "Scheduler", "job": "Job"},
@@ -70,6 +90,8 @@ def declare(reg, eng):
                  requires=["not isnone(self.xp.central)"],
                  ensures=[
                      "not isnone(result)",
+                     # starting a job does not make it final behind the back of aio_submit (which writes the returned state)
+                     (("C06", "C07"), R_READY),
                      ("C06", "implies(effect('aio_code'), (result == JobState.DONE) == (effect_result('aio_code') == 0 or "
                              "(isnone(effect_result('aio_code')) and at_effect('aio_code', isfile(job_donepath(job)) or (isfile(job_failedpath(job)) and parses_int(fs_read(job_failedpath(job))) "
                              "and int(fs_read(job_failedpath(job))) == 0)))))"),
@@ -82,9 +104,9 @@ def declare(reg, eng):
                  effect_guards={"aio_run": [(("C04", "C08"), HELD % "length(job.dependencies)"),
                                             ("C05", "effect('joblock.enter') and not effect('joblock.exit')")]},
                  raises={"AssertionError": {"when": [], "ensures": ["no_effect('lock.acquire')", "no_effect('aio_run')"]}},
-                 interference={"shared": SHARED, "rely": [], "guarantee": []},
+                 interference={"shared": SHARED, "rely": [R_READY], "guarantee": []},
                  modifies=None,
-                 loops={"dependency": {"invariants": [HELD % "_i"]}})
+                 loops={"dependency": {"invariants": [HELD % "_i", R_READY]}})
 
     # ------------------------------------------------------------------ aio_submit
     xp_jobspath = z3.Function("xp_jobspath", Val, PathS)
@@ -111,7 +133,7 @@ def declare(reg, eng):
     # rely at every await of aio_submit (what other coroutines / callbacks may do to *this* job):
     #  R-final: a finished state of the job is not changed by others  [guaranteed by Job.dependencychanged (C06 clause),
     #           the only foreign writer of Job.state: global-frame check]
-    RELY = ["implies(old(job.state).finished(), job.state == old(job.state))",
+    RELY = ["implies(old(job.state).finished(), job.state == old(job.state))", R_READY,
             "job.identifier == old(job.identifier)"]
     eng.load("Scheduler.aio_submit", "scheduler/base.py")
     reg.contract("Scheduler.aio_submit", params=["self", "job"], types={"self": "Scheduler", "job": "Job"},
